@@ -97,18 +97,6 @@ Definition expected_ret (k : case03) (prev : obs) (h : hdr) (now : Z) (b : bifre
     end
   end.
 
-(** the action that spawned learner call number [i] *)
-Fixpoint nth_call (l : list (dact * obs)) (i : nat) : option dact :=
-  match l with
-  | [] => None
-  | (a, _) :: r =>
-    match a with
-    | DDeliver _ _ _ | DDeliverP _ _ _ | DHead _ | DHeadP _ =>
-      match i with O => Some a | S j => nth_call r j end
-    | _ => nth_call r i
-    end
-  end.
-
 (** a learner call only ever adds the header right above the store head (or rewrites a height below it): a
     network head answer that arrives when the Store's head already is ANOTHER header of that height must
     not replace it.  Decided on the observation before the answer arrives; only without the Append gate,
